@@ -476,6 +476,12 @@ impl Store {
                 if tagname == b"e" {
                     if let Some(id_hex) = tag.next() {
                         if let Ok(id) = Id::read_hex(id_hex) {
+                            // A request cannot delete itself: it would be stored and
+                            // marked deleted at once
+                            if id == event.id() {
+                                continue;
+                            }
+
                             // Actually remove
                             if let Some(target) = self.get_event_by_id(id)? {
                                 // author must match
